@@ -769,6 +769,75 @@ fn scripted_batch(r: &mut Rng, sess: &mut Session, out: &mut Out, ctx: &mut Ctx)
     run_cmd("diff p0 - cur", sess, out, ctx);
 }
 
+/// scripted family: block markers in a text object under every encoding (a marker is U+FFFC wide: 3 units
+/// in UTF-8).  (a) ONE remote batch brings new blocks together with later edits of the same text to the
+/// tracked replica (incremental patch indexes); (b) a block — leading, adjacent to another block, or
+/// interior — is removed and the text after it edited, then diffed in both directions, whole-document and
+/// per object.
+fn scripted_blocks(r: &mut Rng, sess: &mut Session, out: &mut Out, ctx: &mut Ctx) {
+    out.count("cases_scripted_blocks");
+    let enc = ["cp", "utf8", "utf16"][r.below(3) as usize];
+    out.count(&format!("blocks_enc_{}", enc));
+    let a: Vec<Vec<u8>> = vec![vec![0x30, r.next() as u8], vec![0x50, r.next() as u8]];
+    run_cmd(&format!("crdt.new r0 {} {}", enc, hex::encode(&a[0])), sess, out, ctx);
+    let res = exec_line(sess, "crdt.putobj r0 _ m74 T", out);
+    let t = res[0].strip_prefix("ok ").unwrap_or("_").to_string();
+    run_cmd(&format!("crdt.splice r0 {} 0 0 {}", t, hex::encode("héllo wörld")), sess, out, ctx);
+    run_cmd("crdt.commit r0", sess, out, ctx);
+    let tlen = |sess: &Session| -> usize { sess.crdt.replicas.get("r0").unwrap().length(parse_exid(&t)) };
+    // index (in units) of every block marker of r0's text
+    let blocks = |sess: &Session| -> Vec<usize> {
+        let d = sess.crdt.replicas.get("r0").unwrap();
+        let o = parse_exid(&t);
+        let mut res = vec![]; let mut last: Option<ObjId> = None;
+        for i in 0..d.length(&o) {
+            match d.get(&o, i) { Ok(Some((Value::Object(ObjType::Map), id))) => { if last.as_ref() != Some(&id) { res.push(i); } last = Some(id); } _ => { last = None; } }
+        }
+        res
+    };
+    let texts = ["x", "ÿz", "🙂", "ab"];
+    for _ in 0..r.below(3) { run_cmd(&format!("crdt.rt.block r0 {} 0", t), sess, out, ctx); run_cmd("crdt.commit r0", sess, out, ctx); }
+    run_cmd(&format!("crdt.patch.track r0 p0 {}", hex::encode(&a[1])), sess, out, ctx);
+    run_cmd("incr p0", sess, out, ctx);
+    // (a) one batch: blocks and later edits
+    let n0 = ctx.all_changes.len();
+    for _ in 0..r.range(1, 3) {
+        let len = tlen(sess);
+        let pos = if r.chance(1, 3) { 0 } else { r.below(len as u64 + 1) as usize };
+        run_cmd(&format!("crdt.rt.block r0 {} {}", t, pos), sess, out, ctx);
+        let len = tlen(sess);
+        let p2 = r.below(len as u64 + 1) as usize;
+        run_cmd(&format!("crdt.rt.splice r0 {} {} 0 {} -", t, p2, hex::encode(texts[r.below(4) as usize])), sess, out, ctx);
+        run_cmd("crdt.commit r0", sess, out, ctx);
+    }
+    let n1 = ctx.all_changes.len();
+    run_cmd(&format!("deliver p0 {}", (n0..n1).map(|x| x.to_string()).collect::<Vec<_>>().join(",")), sess, out, ctx);
+    run_cmd("incr p0", sess, out, ctx);
+    // (b) a block goes away, the text after it is edited; diff both ways
+    if n1 == 0 { return; }
+    let h1 = n1 - 1;
+    let bs = blocks(sess);
+    if !bs.is_empty() {
+        // prefer a leading block or one directly after another block
+        let lead: Vec<usize> = bs.iter().cloned().filter(|b| *b == 0 || bs.iter().any(|c| c < b && bs.iter().filter(|x| **x > *c && **x < *b).count() == 0 && {
+            let d = sess.crdt.replicas.get("r0").unwrap(); let o = parse_exid(&t);
+            (*c + 1..*b).all(|i| matches!(d.get(&o, i), Ok(Some((Value::Object(ObjType::Map), _))))) })).collect();
+        let b = if !lead.is_empty() && r.chance(2, 3) { out.count("blocks_removed_leading_or_adjacent"); lead[r.below(lead.len() as u64) as usize] } else { bs[r.below(bs.len() as u64) as usize] };
+        run_cmd(&format!("crdt.del r0 {} i{}", t, b), sess, out, ctx);
+        let len = tlen(sess);
+        if len > b { let p2 = b + r.below((len - b) as u64 + 1) as usize; run_cmd(&format!("crdt.rt.splice r0 {} {} 0 {} -", t, p2, hex::encode(texts[r.below(4) as usize])), sess, out, ctx); }
+        if len > b + 1 && r.chance(1, 2) { let p3 = b + r.below((len - b) as u64) as usize; run_cmd(&format!("crdt.rt.splice r0 {} {} 1 - -", t, p3), sess, out, ctx); }
+        run_cmd("crdt.commit r0", sess, out, ctx);
+        run_cmd(&format!("diff r0 {} cur", h1), sess, out, ctx);
+        run_cmd(&format!("diff r0 cur {}", h1), sess, out, ctx);
+        run_cmd(&format!("diff r0 {} cur {}", h1, t), sess, out, ctx);
+        run_cmd(&format!("diff r0 cur {} {}", h1, t), sess, out, ctx);
+    }
+    let n2 = ctx.all_changes.len();
+    if n2 > n1 { run_cmd(&format!("deliver p0 {}", (n1..n2).map(|x| x.to_string()).collect::<Vec<_>>().join(",")), sess, out, ctx); run_cmd("incr p0", sess, out, ctx); }
+    run_cmd("diff p0 - cur", sess, out, ctx);
+}
+
 fn idxs(r: &mut Rng, n: usize, k: usize) -> String {
     (0..k).map(|_| r.below(n as u64).to_string()).collect::<Vec<_>>().join(",")
 }
@@ -785,6 +854,7 @@ pub fn generate(r: &mut Rng, opts: &BTreeMap<String, String>, sess: &mut Session
         return;
     }
     if r.chance(1, 5) { return scripted_batch(r, sess, out, &mut ctx); }
+    if cfg!(feature = "e_richtext") && r.chance(1, 6) { return scripted_blocks(r, sess, out, &mut ctx); }
     let enc = ["cp", "utf8", "utf16"][r.below(3) as usize];
     let mut actors: Vec<Vec<u8>> = (0..10).map(|i| vec![0x10 * (10 - i as u8) + r.below(8) as u8, r.next() as u8]).collect();
     if r.chance(1, 2) { actors.reverse(); }
